@@ -54,6 +54,8 @@ type RTCase struct {
 	Term2         []Change `json:"term2"`    // further changes on Z
 	Term3         []Change `json:"term3"`    // heartbeats in X's second term
 	RegionStorage bool     `json:"region_storage"`
+	EncX          int      `json:"enc_x,omitempty"` // encryption at rest of X's storage (0 off, 1..3)
+	EncF          int      `json:"enc_f,omitempty"` // ... of the follower's
 }
 
 func genRTReg(t *rapid.T) Reg {
@@ -92,6 +94,10 @@ func genRoundTrip(t *rapid.T) RTCase {
 	c.Term2 = genRTChanges(t, "nterm2", []int{0, 0, 1, 3}, all)
 	c.Term3 = genRTChanges(t, "nterm3", []int{0, 1, 2, 4}, all)
 	c.RegionStorage = rapid.Bool().Draw(t, "regionStorage")
+	if rapid.IntRange(0, 2).Draw(t, "encrypted") == 0 {
+		c.EncX = rapid.IntRange(0, 3).Draw(t, "encX")
+		c.EncF = rapid.IntRange(0, 3).Draw(t, "encF")
+	}
 	return c
 }
 
@@ -130,7 +136,7 @@ type rtResult struct {
 }
 
 func execRoundTrip(c RTCase) (res rtResult) {
-	fx, err := newFixtureOpt(0, c.RegionStorage, true)
+	fx, err := newFixtureOpt(0, c.RegionStorage, true, c.EncX, c.EncF)
 	if err != nil {
 		res.inconclusive = "fixture: " + err.Error()
 		return
@@ -444,7 +450,7 @@ func execRoundTrip(c RTCase) (res rtResult) {
 // newZ creates member Z: it holds the regions X held when its term ended and its change log is at
 // the same index (it was a follower in sync with X).
 func newZ(fx *fixture, held []*core.RegionInfo, index uint64) (*zMember, error) {
-	srv, err := newSrv(fx.leaderSrv.ctx, fx.dir, "zleader", fx, kv.NewMemoryKV())
+	srv, err := newSrv(fx.leaderSrv.ctx, fx.dir, "zleader", fx, kv.NewMemoryKV(), nil)
 	if err != nil {
 		return nil, err
 	}
@@ -489,6 +495,7 @@ func runRoundTrip(c RTCase) (vkit.Info, error) {
 	info.ClassIf(res.inflight > 1, "in-flight-heartbeats>1")
 	info.ClassIf(res.stillSame > 0, "in-flight-region-keeps-epoch")
 	info.ClassIf(!c.RegionStorage, "follower-default-storage")
+	info.ClassIf(c.EncX%4 != 0 || c.EncF%4 != 0, "encryption-at-rest")
 	info.ClassIf(len(c.Term3) > 0, "heartbeats-in-second-term")
 	info.NonTrivial = res.stillSame > 0
 	return info, nil
